@@ -143,7 +143,7 @@ def emit_cpp(prog, opts=None):
         else: out.append('struct %s { int p; %s(int v = 0) : p(v) {} %s };' % (e, e, (getattr(prog, 'evt_extra', None) or opts.get('evt_extra', {})).get(e, '')))
     for f in prog.flags: out.append('struct %s {};' % f)
     out.append('}')
-    out.append('#if VF_BE == 5 || defined(VF_KLEENE)')
+    out.append('#if VF_BE == 5 || defined(VF_KLEENE_ON)')
     for anyt, fn in (('std::any', 'vf_pay_stdany'), ('boost::any', 'vf_pay_boostany')):
         ns = anyt.split('::')[0]
         out.append('int %s(%s const& a) {' % (fn, anyt))
